@@ -30,9 +30,10 @@ if [ $T_EXIST = pass ] && [ $D_WITH = fail ] && [ $D_WITHOUT = pass ]; then
   cp $SRC/patch.diff /verif/seeded/$DEST/patch.diff
   cp $SRC/zz_seed_demo_test.go /verif/seeded/$DEST/zz_seed_demo_test.go
   # run our check against it
-  git -C /repo apply /verif/seeded/$DEST/patch.diff
-  (cd /verif && ./check $PROP quick --no-evidence > /tmp/confirm_check_$$.log 2>&1); RC=$?
-  git -C /repo checkout -- .
+  # the check runs against the scratch worktree (with the patch applied), never against /repo
+  git apply /verif/seeded/$DEST/patch.diff
+  (cd /verif && ./check $PROP quick --no-evidence --repo $WT > /tmp/confirm_check_$$.log 2>&1); RC=$?
+  git checkout -q -- .
   DET=$(grep -m1 '^VIOLATION\|^INCONCLUSIVE' /tmp/confirm_check_$$.log)
   MSG=$(grep -m1 -A1 '^VIOLATION' /tmp/confirm_check_$$.log | tail -1 | sed 's/^ *//')
   python3 - "$SRC" "$DEST" "$PKGS" "$RC" "$DET" "$MSG" "$DEMODIR" <<'PY'
